@@ -33,6 +33,8 @@ pub struct Store {
     pub fail_all: bool,
     /// the next `fail_reads` reads of a pack fail (a transient read error of the backend)
     pub fail_reads: usize,
+    /// the next `short_reads` whole reads of a pack return only the first half of its bytes (a short read)
+    pub short_reads: usize,
     pub list_seed: Option<u64>,
     /// bumps on every mutation of the item set (cache key for the projection)
     pub version: u64,
@@ -48,6 +50,7 @@ impl Store {
             fail_base: 0,
             fail_all: false,
             fail_reads: 0,
+            short_reads: 0,
             list_seed: None,
             version: 0,
         }
@@ -128,9 +131,18 @@ impl Adapter for VerifAdapter {
             s.fail_reads -= 1;
             return Err(anyhow!("injected_read_failure"));
         }
+        let short = if s.short_reads > 0 && key.ends_with(".pack") && offset == 0 && length == 0 {
+            s.short_reads -= 1;
+            true
+        } else {
+            false
+        };
         match &s.backing {
             Backing::Own(m) => {
                 let data = m.get(key).ok_or_else(|| anyhow!("object not found: {}", key))?;
+                if short {
+                    return Ok(data[..data.len() / 2].to_vec());
+                }
                 if offset == 0 && length == 0 {
                     Ok(data.as_ref().clone())
                 } else {
